@@ -32,11 +32,7 @@ impl<const B: Word> Repr<B> {
 //@@ FN float/repr/is_infinite.rs
 //@@ FN float/round_ops/smaller_than_one.rs drop_asserts=0
 }
-impl<R: Round> Context<R> {
-//@@ FN float/convert/context_new.rs
-}
 impl<R: Round, const B: Word> FBig<R, B> {
-//@@ FN float/fbig/new.rs
 //@@ FN float/round_ops/split_at_point_internal.rs
 }
 } // verus!
